@@ -289,57 +289,16 @@ scheds = st.one_of(
 # ---- exhaustive DFS with a preemption bound (thorough)
 
 def dfs(ctx, workload, bound, shard=0, nshards=1, free_bound=3):
-    """Enumerates every schedule with <= bound preemptions (and <= free_bound non-default choices at points where the
-    running thread cannot continue). Stateless: each schedule is re-executed from the start following a prefix."""
-    stack = [([], 0, 0)]      # (prefix of forced choices: list of (step, name), preemptions used, free choices used)
-    runs = 0
-    complete = True
-    first = True
-    while stack:
-        prefix, used, free_used = stack.pop()
-        forced = dict(prefix)
-        branch = []
+    """Every schedule with <= bound preemptions (and <= free_bound non-default choices at blocking points)."""
+    case = {'workload': workload, 'sched': {'mode': 'dfs'}}
 
-        def chooser(step, cur, enabled, sched):
-            if step in forced:
-                n = forced[step]
-                if n not in enabled:
-                    raise DS.Deadlock('prefix not replayable at step %d' % step)
-                return n
-            default = cur if cur in enabled else enabled[0]
-            if step > (prefix[-1][0] if prefix else 0):
-                for n in enabled:
-                    if n == default:
-                        continue
-                    if cur in enabled:
-                        if used + 0 < bound:
-                            branch.append((step, n, 1, 0))
-                    elif free_used < free_bound:
-                        branch.append((step, n, 0, 1))
-            return default
+    def on_run(sched):
+        ctx.case({'workload': workload, 'trace': ''.join(n[-1] for n in sched.trace)},
+                 sched.preemptions >= 1 or sched.timer_firings >= 2,
+                 classes=('mode:dfs', 'preemptions:%s' % min(sched.preemptions, 5)))
 
-        case = {'workload': workload, 'sched': {'mode': 'dfs'}}
-        top = len(prefix) == 0
-        mine = True
-        if nshards > 1 and prefix:
-            mine = (prefix[0][0] % nshards) == shard
-        elif nshards > 1:
-            mine = True    # the root is executed by every shard to discover first-level branches
-        if mine:
-            sched = run_schedule(ctx, case, chooser=chooser)
-            runs += 1
-            if not (nshards > 1 and top and shard != 0):
-                ctx.case({'workload': workload, 'trace': ''.join(n[-1] for n in sched.trace)},
-                         sched.preemptions >= 1 or sched.timer_firings >= 2,
-                         classes=('mode:dfs', 'preemptions:%s' % min(sched.preemptions, 5)))
-            for step, n, dp, df in branch:
-                if nshards > 1 and top and (step % nshards) != shard:
-                    continue
-                stack.append((prefix + [(step, n)], used + dp, free_used + df))
-        if runs > ctx.pick(3000, 400000):
-            complete = False
-            break
-    return runs, complete
+    return DS.dfs_explore(lambda chooser: run_schedule(ctx, case, chooser=chooser), bound, shard, nshards,
+                          free_bound=free_bound, max_runs=ctx.pick(3000, 400000), on_run=on_run)
 
 
 SMALL = {'producers': [[{'ops': [{'op': 'set', 'k': 'k0', 'v': 1}, {'op': 'set', 'k': 'k1', 'v': 2}], 'fail': None}],
